@@ -97,9 +97,14 @@ impl<'a> G<'a> {
         let name = if anon { String::new() } else { self.fresh("E") };
         let n = self.r.range(1, 6);
         let mut vs = vec![];
+        let mut names: Vec<String> = vec![];
         for i in 0..n {
-            let v = self.plain(&format!("EV{i}_"));
-            vs.push(match self.r.below(6) { 0 => format!("{v} = -{}", self.r.below(100)), 1 => format!("{v} = {}", self.r.below(5)), 2 => format!("{v} = 0x7fffffff"), 3 if i > 0 => format!("{v} = {}", vs.len()), _ => v });
+            // enumerators are a naming position too: keywords / `$` / trailing `_`, also as aliases of an
+            // earlier enumerator (duplicate value: emitted as associated constants in the Rust-enum styles)
+            let v = if self.r.chance(1, 3) { self.fresh(&format!("EV{i}_")) } else { self.plain(&format!("EV{i}_")) };
+            names.push(v.clone());
+            vs.push(match self.r.below(7) { 0 => format!("{v} = -{}", self.r.below(100)), 1 => format!("{v} = {}", self.r.below(5)), 2 => format!("{v} = 0x7fffffff"), 3 if i > 0 => format!("{v} = {}", vs.len()),
+                4 | 5 if i > 0 => { let k = self.r.below(i) as usize; format!("{v} = {}", names[k]) }, _ => v });
         }
         let _ = writeln!(self.out, "enum {name} {{ {} }};", vs.join(", "));
         self.facts.features.push(if anon { "anon-enum" } else { "enum" });
